@@ -663,8 +663,22 @@ def gen_ref_program(rng, missing=False):
         dupfree.append(len(set(gl_)) == len(gl_) and 0 not in gl_)
         sizes.append(size)
     if missing:
-        texts.append("cMiss = unicode(0x%x, 0x2345, 0x%x);" % (base, base + 1))
-        refs.append([{"k": "unicode", "v": [0x61 if kind != "symbol" else 0xF061, 0x2345, 0x62 if kind != "symbol" else 0xF062]}])
+        last = base + n - 3          # the last code point of the contiguous mapped block
+        mv = rng.randrange(4)
+        if mv == 0:                  # one unmapped code point between two mapped ones
+            texts.append("cMiss = unicode(0x%x, 0x2345, 0x%x);" % (base, base + 1))
+            refs.append([{"k": "unicode", "v": [base, 0x2345, base + 1]}])
+        elif mv == 1:                # a run of adjacent unmapped code points in a list
+            texts.append("cMiss = unicode(0x%x, 0x2345, 0x2346, 0x2347, 0x%x);" % (base, base + 1))
+            refs.append([{"k": "unicode", "v": [base, 0x2345, 0x2346, 0x2347, base + 1]}])
+        elif mv == 2:                # a range that runs off the mapped block: two mapped, then 2-5 unmapped
+            k = rng.randint(2, 5)
+            texts.append("cMiss = unicode(0x%x..0x%x);" % (last - 1, last + k))
+            refs.append([{"k": "urange", "a": last - 1, "b": last + k}])
+        else:                        # an unmapped stretch in the middle of one range is not possible with this cmap; two parts
+            k = rng.randint(2, 4)
+            texts.append("cMiss = (unicode(0x%x..0x%x), unicode(0x%x));" % (last, last + k, base))
+            refs.append([{"k": "urange", "a": last, "b": last + k}, {"k": "unicode", "v": [base]}])
         sizes.append(2)
     names = ["c%d" % k for k in range(ncls)] + (["cMiss"] if missing else [])
     prog.class_order = names
